@@ -9,8 +9,8 @@ CHECK = {
             "vocabulary, raw queries, binary bodies), 14% near misses of the hijacked endpoints, 8% malformed targets/queries; about 1 case in 150 (and 11 "
             "corpus lines) is run against a proxy configured with small timeouts (read_header_timeout 200-300 ms, idle_timeout 50 ms-60 s) and a daemon "
             "that starts answering later than every one of them and/or pauses in the middle of its body (tokens cf= dl=); half of the repo/stat cases "
-            "with peers let a random subset of the per-peer RepoStat calls fail (token sb=), repo/gc cases with stream-errors=true let the collection "
-            "report a failed peer and/or a key error (token ge=); "
+            "with peers let a random subset of the per-peer RepoStat calls fail (token sb=), half of the repo/gc cases (any stream-errors value) let the collection "
+            "report a failed peer and/or a key error (token ge=; without stream-errors=true that is the known finding K12d, which the model follows); "
             "non-trivial = the request target decodes (the property constrains it); distinct by case line",
     "trusted_base": ["recording fake IPFS daemon (net/http server recording RequestURI, headers, body) and recording fake Cluster/IPFSConnector/Consensus "
                      "gorpc services with scripted answers and failures",
@@ -30,9 +30,7 @@ CHECK = {
                     "cases; read_timeout = write_timeout = 0 (their defaults); one fresh proxy per request",
                     "request targets are origin-form; CONNECT, OPTIONS * and absolute-form targets are not generated",
                     "add options expire-at/expire-in/pin-update/origins and shard=true are outside the model (sharded adding is C13's)",
-                    "boolean options are constrained by the Spec only in their documented spellings true/false",
-                    "repo/gc collections that report peer/key errors are generated only with stream-errors=true until the proposed finding K12d "
-                    "(X-Stream-Error after the collection ran; notes/C12.md Round 8b) is registered; VERIF_C12_GCERR=1 generates the others"],
+                    "boolean options are constrained by the Spec only in their documented spellings true/false"],
 }
 META = {
     "text": "The hijack table of ipfsproxy.New is regenerated from the source on every run and proved (decide) to be exactly the frozen expectation; "
